@@ -310,6 +310,10 @@ func genArpaName(rng *rand.Rand) string {
 		b[rng.IntN(len(b))] ^= 0x20
 		s = string(b)
 	}
+	if rng.IntN(16) == 0 {
+		// one, two, three trailing dots (on top of a root that may have one already)
+		s += strings.Repeat(".", 1+rng.IntN(3))
+	}
 	return dictMutate(rng, s, ".", 16)
 }
 
